@@ -46,6 +46,20 @@ def readback(o):
     return o
 
 
+def readback_doc(d):
+    """A caller's document after the loader has seen it: plain JSON, or - if the loader wrote model
+    objects into it - their read-back (so the comparison shows what changed instead of raising)."""
+    import attrs
+
+    if isinstance(d, dict):
+        return {k: readback_doc(v) for k, v in d.items()}
+    if isinstance(d, list):
+        return [readback_doc(x) for x in d]
+    if attrs.has(type(d)):
+        return {"<model object>": type(d).__name__}
+    return d
+
+
 def normalise(d):
     """The document with the defaults the loader may materialise removed (empty
     extends/mixins lists)."""
@@ -174,6 +188,17 @@ def wire_edits(doc, rng, limit):
         ed("request.result", lambda d, i=i: d["requests"][i].__setitem__("result", {"kind": "array", "element": d["requests"][i]["result"]}))
         ed("request.params", lambda d, i=i: d["requests"][i].__setitem__("params", {"kind": "reference", "name": "ZZParams"}) if True else None)
         ed("request.registrationOptions", lambda d, i=i: d["requests"][i].__setitem__("registrationOptions", {"kind": "reference", "name": "ZZReg"}))
+    for i in range(len(R)):
+        if i < 40 or "registrationMethod" in R[i]:
+            ed("request.registrationMethod", lambda d, i=i: d["requests"][i].__setitem__("registrationMethod", d["requests"][i].get("registrationMethod", "zz/registration") + "X"))
+            ed("request.registrationMethod dropped", lambda d, i=i: d["requests"][i].pop("registrationMethod"))
+    for i in range(len(N)):
+        ed("notification.registrationMethod", lambda d, i=i: d["notifications"][i].__setitem__("registrationMethod", d["notifications"][i].get("registrationMethod", "zz/registration") + "X"))
+    for i in idxs(R):
+        ed("request.partialResult", lambda d, i=i: d["requests"][i].__setitem__("partialResult", {"kind": "reference", "name": "ZZPartial"}))
+        ed("request.errorData", lambda d, i=i: d["requests"][i].__setitem__("errorData", {"kind": "reference", "name": "ZZErr"}))
+    for i in idxs(N):
+        ed("notification.registrationOptions", lambda d, i=i: d["notifications"][i].__setitem__("registrationOptions", {"kind": "reference", "name": "ZZReg"}))
     for i in idxs(N):
         ed("notification.method", lambda d, i=i: d["notifications"][i].__setitem__("method", d["notifications"][i]["method"] + "X"))
         ed("notification.direction", lambda d, i=i: d["notifications"][i].__setitem__("messageDirection", "both" if d["notifications"][i]["messageDirection"] != "both" else "serverToClient"))
@@ -362,6 +387,34 @@ def main(tier):
             df = first_diff(normalise(exp), normalise(readback(m)))
             if df:
                 rep.fail("merged model is not the first extended in order|%s|%s" % (generic_path(df[0]), df[1].split(" ")[0]), {"document": name, "adds": len(adds), "path": df[0], "what": df[1]})
+    # ---- loading must not alias or mutate the caller's documents, nor models loaded earlier
+    for name, d in docs[:2]:
+        d0 = copy.deepcopy(d)
+        d0["typeAliases"] = d0["typeAliases"] if name == "committed" else []
+        d0["notifications"] = [] if name != "committed" else d0["notifications"]
+        add = copy.deepcopy(ADD1)
+        add["notifications"] = copy.deepcopy(ADD2["notifications"])
+        add["typeAliases"] = copy.deepcopy(ADD1["typeAliases"])
+        pristine0, pristine_add = copy.deepcopy(d0), copy.deepcopy(add)
+        try:
+            early = gm.LSPModel(**d0)  # the caller's own object, not a copy
+            early_rb = readback(early)
+            m1 = gm.create_lsp_model([d0, add])
+            rb1 = readback(m1)
+            m2 = gm.create_lsp_model([d0, add])
+            rb2 = readback(m2)
+            stats["merge_cases"] += 2
+        except Exception as e:
+            rep.fail("repeated merge on the caller's documents raises|%s" % type(e).__name__, {"document": name, "error": repr(e)[:300]})
+            continue
+        if first_diff(normalise(pristine0), normalise(readback_doc(d0))) or first_diff(pristine_add, readback_doc(add)):
+            rep.fail("loading mutates the caller's document", {"document": name, "first": first_diff(normalise(pristine0), normalise(readback_doc(d0)))})
+        if first_diff(early_rb, readback(early)):
+            rep.fail("a later merge changes a model loaded earlier", {"document": name, "diff": first_diff(early_rb, readback(early))})
+        if first_diff(rb1, rb2):
+            rep.fail("the same merge gives another model the second time", {"document": name, "diff": first_diff(rb1, rb2)})
+        if first_diff(rb1, readback(m1)):
+            rep.fail("a later merge changes an earlier merged model", {"document": name})
     try:
         one = gm.create_lsp_model([copy.deepcopy(SMALL)])
         if first_diff(normalise(SMALL), normalise(readback(one))):
@@ -490,6 +543,52 @@ def main(tier):
                     rep.fail("schema-violating model: files written|%s" % label, dict(wit, fs=writes[:4]))
                 if before != after:
                     rep.fail("schema-violating model: output directory changed|%s" % label, wit)
+        # history inside one process: a good model at path P, then P rewritten into a violating
+        # document, then the generator again with the same path
+        import subprocess
+
+        script = (
+            "import sys, json, shutil, generator.__main__ as g\n"
+            "plugin, p, good, bad, out = sys.argv[1:6]\n"
+            "shutil.copy(good, p)\n"
+            "g.main(['--plugin', plugin, '--model', p, '--output-dir', out, '--test-dir', out + '-t'])\n"
+            "shutil.copy(bad, p)\n"
+            "try:\n"
+            "    g.main(['--plugin', plugin, '--model', p, '--output-dir', out + '-second', '--test-dir', out + '-t'])\n"
+            "except BaseException as e:\n"
+            "    print('REJECTED', type(e).__name__)\n"
+            "else:\n"
+            "    print('ACCEPTED')\n"
+        )
+        from . import c16
+
+        good_full = os.path.join(root, "hist-good.json")
+        json.dump(committed, open(good_full, "w"))
+        good_trim = os.path.join(root, "hist-good-trim.json")
+        json.dump(c16.trimmed(committed), open(good_trim, "w"))
+        hist_faults = [("delete request.result", lambda d: d["requests"][0].pop("result")), ("properties given as an object", lambda d: d["structures"][0].__setitem__("properties", {})), ("bad messageDirection", lambda d: d["notifications"][0].__setitem__("messageDirection", "sideways")), ("delete request.messageDirection", lambda d: d["requests"][0].pop("messageDirection"))]
+        def hist(kpl):
+            k, pl = kpl
+            bad_doc = copy.deepcopy(c16.trimmed(committed) if pl == "testdata" else committed)
+            hist_faults[k][1](bad_doc)
+            badp = os.path.join(root, "hist-bad-%s.json" % pl)
+            json.dump(bad_doc, open(badp, "w"))
+            goodp = good_trim if pl == "testdata" else good_full
+            pth = os.path.join(root, "history-%s.json" % pl)
+            outd = os.path.join(root, "hist-out-%s" % pl)
+            env = dict(os.environ, PYTHONPATH=common.REPO, PYTHONHASHSEED="0", PYTHONDONTWRITEBYTECODE="1")
+            pr = subprocess.run([common.PY, "-c", script, pl, pth, goodp, badp, outd], cwd=common.REPO, env=env, capture_output=True, text=True, timeout=600)
+            stats["gate_runs"] += 1
+            tail_ = (pr.stdout + pr.stderr)[-400:]
+            if "ACCEPTED" in pr.stdout:
+                rep.fail("schema-violating model accepted after a good model at the same path in the same process|%s" % hist_faults[k][0], {"plugin": pl, "tail": tail_})
+            elif "REJECTED" not in pr.stdout:
+                rep.inconc("in-process gate history did not complete for %s: %s" % (pl, tail_))
+            if os.path.isdir(outd + "-second") and genrun.tree_hashes(outd + "-second"):
+                rep.fail("schema-violating model: files written|in-process history", {"plugin": pl})
+
+        with ThreadPoolExecutor(4) as ex2:
+            list(ex2.map(hist, list(enumerate(("python", "rust", "dotnet", "testdata")))))
     finally:
         shutil.rmtree(root, ignore_errors=True)
     if stats["gate_runs"] == 0 or stats["equal_pairs"] == 0:
